@@ -387,6 +387,32 @@ func checkC20(c *Checker) {
 			c.expect(okP, "C20-Z3", inst, c.pos(fn.Pos()), "no panic path", d)
 		}
 	}
+	// allocating from a zero-channel allocator (which includes the zero value) must not panic, whatever its Length
+	// and Capacity say: both products are 0
+	for _, name := range []string{"Alloc", "PoolAlloc"} {
+		fn := c.anchor("C20-Z3", name)
+		if fn == nil || len(fn.Params) != 1 {
+			continue
+		}
+		a := paramName(fn, 0)
+		s := c.runAssumed(fn, map[string]*Term{a + ".Channels": zeroI()})
+		inst := shortFn(c.W, fn) + " @ zero-channel allocator"
+		if c.undecidedEffects("C20-Z3", inst, s) {
+			continue
+		}
+		okA, d := true, ""
+		for _, o := range s.Outcomes {
+			if o.Kind == OPanic {
+				okA, d = false, "allocation from a zero-channel allocator can panic: "+factsBrief(o.St.facts)
+			}
+			for _, e := range divisionsOfInterest(o) {
+				if ok, dv := divisorNonZero(e); !ok {
+					okA, d = false, fmt.Sprintf("%s by %s at %s on a zero-channel allocator", e.Note, dv, c.effPos(e))
+				}
+			}
+		}
+		c.expect(okA, "C20-Z3", inst, c.pos(fn.Pos()), "no panic path", d)
+	}
 	// ChannelLength with zero channels / zero length
 	if fn := c.anchor("C20-Z2", "ChannelLength"); fn != nil {
 		c.degenerateRun(fn, degenerate{"zero-channels", map[string]*Term{paramName(fn, 1): zeroI()}})
@@ -425,7 +451,19 @@ func (c *Checker) degenerateRun(fn *ssa.Function, sc degenerate) {
 	okZ2, okZ3 := true, true
 	var d2, d3 string
 	var w3 string
+	// Channel(c): an index outside [0, channels) is an invalid argument, not a degenerate buffer (a zero-channel
+	// buffer has no valid index at all, so there every c is kept)
+	var validC *Facts
+	if fn.Name() == "Channel" && len(fn.Params) == 2 && sc.name != "zero-channels" {
+		validC = &Facts{}
+		cAtom := normInt(mkAtom(paramName(fn, 1), intT))
+		validC.add(Cond{Kind: CGE0, P: cAtom})
+		validC.add(Cond{Kind: CGE0, P: normInt(buf{paramName(fn, 0)}.ch()).Sub(cAtom).AddInt(-1)})
+	}
 	for _, o := range s.Outcomes {
+		if validC != nil && !feasible(o, validC) {
+			continue
+		}
 		if o.Kind == OPanic {
 			// the shape guard: the decisive (last) condition of the path says two counts differ; pure reads
 			// (bit depths) may have been compared before it
